@@ -8,6 +8,7 @@ import (
 	"go/token"
 	"os"
 	"regexp"
+	"strings"
 
 	"github.com/reedom/convergen/pkg/builder"
 	"github.com/reedom/convergen/pkg/builder/model"
@@ -85,13 +86,30 @@ func NewParser(srcPath, dstPath string) (*Parser, error) {
 	if fileSrc == nil && parseErr != nil {
 		return nil, logger.Errorf("%v: %v", srcPath, parseErr)
 	}
+	// An import without an explicit name is referred to by the name in the package clause
+	// of the imported package, which may differ from the last element of its path.
+	imports := util.NewImportNames(fileSrc.Imports)
+	for pkgPath, name := range imports {
+		if imported, ok := pkgs[0].Imports[pkgPath]; ok && imported.Name != "" && name != "_" {
+			explicit := false
+			for _, spec := range fileSrc.Imports {
+				if spec.Name != nil && spec.Name.Name != "_" && strings.ReplaceAll(spec.Path.Value, `"`, "") == pkgPath {
+					explicit = true
+				}
+			}
+			if !explicit {
+				imports[pkgPath] = imported.Name
+			}
+		}
+	}
+
 	return &Parser{
 		srcPath: fileSet.Position(fileSrc.Pos()).Filename,
 		fset:    fileSet,
 		file:    fileSrc,
 		pkg:     pkgs[0],
 		opts:    option.NewOptions(),
-		imports: util.NewImportNames(fileSrc.Imports),
+		imports: imports,
 	}, nil
 }
 
